@@ -266,7 +266,7 @@ Proof.
   unfold fun_ok in Hok. apply andb_prop in Hok as [Hok _]. apply andb_prop in Hok as [Hsafe Hnd]. apply nodup_names_NoDup in Hnd.
   unfold compile_fun in Hcf.
   cinv Hcf. rename a into rt. destruct (negb (supported rt)); [discriminate|].
-  cinv Hcfb. destruct a as [[[op ip] nobj] nint]. cinv Hcfbb. destruct a as [st rb].
+  cinv Hcfb. destruct a as [[[op ip] nobj] nint]. destruct ((256 <? nobj) || (256 <? nint)) eqn:Hparlim; [discriminate|]. cinv Hcfbb. destruct a as [st rb].
   set (env := mkce op ip (ty_eqb rt TVoid)) in *.
   set (C := genblock cfg rb 0 ++ (if ty_eqb rt TVoid then [I0 KReturn] else [])) in *.
   destruct (negb (jumps_fit C)); [discriminate|]. inversion Hcfbbb; subst cf. clear Hcfbbb.
@@ -432,13 +432,13 @@ Proof.
   unfold call_fun, push_args. rewrite Hpush. rewrite <- Hrun. f_equal.
   unfold enter. f_equal. f_equal; rewrite !app_nil_r.
   - pose proof Hcf as Hcf2. unfold compile_fun in Hcf2. (* nobj = number of object arguments *)
-    cinv Hcf2. destruct (negb (supported a)); [discriminate|]. cinv Hcf2b. destruct a0 as [[[op ip] nobj] nint]. cinv Hcf2bb. destruct a0 as [st rb].
+    cinv Hcf2. destruct (negb (supported a)); [discriminate|]. cinv Hcf2b. destruct a0 as [[[op ip] nobj] nint]. destruct ((256 <? nobj) || (256 <? nint)); [discriminate|]. cinv Hcf2bb. destruct a0 as [st rb].
     destruct (negb (jumps_fit _)); [discriminate|]. rewrite (lk_nobj _ _ Hlink). inversion Hcf2bbb; subst cf. cbn [cf_nobj].
     unfold fun_ok in Hok. apply andb_prop in Hok as [Hok _]. apply andb_prop in Hok as [_ Hnd]. apply nodup_names_NoDup in Hnd.
     destruct (split_bind _ _ _ _ _ _ _ _ _ _ _ _ [] [] Hcf2ba Ebp Hnd) as (Hno & _); try reflexivity; try (intros x i Hx; discriminate). { intros x _. auto. }
     cbn [app] in Hno. rewrite Hno, len_rev. lia.
   - pose proof Hcf as Hcf2. unfold compile_fun in Hcf2.
-    cinv Hcf2. destruct (negb (supported a)); [discriminate|]. cinv Hcf2b. destruct a0 as [[[op ip] nobj] nint]. cinv Hcf2bb. destruct a0 as [st rb].
+    cinv Hcf2. destruct (negb (supported a)); [discriminate|]. cinv Hcf2b. destruct a0 as [[[op ip] nobj] nint]. destruct ((256 <? nobj) || (256 <? nint)); [discriminate|]. cinv Hcf2bb. destruct a0 as [st rb].
     destruct (negb (jumps_fit _)); [discriminate|]. rewrite (lk_nint _ _ Hlink). inversion Hcf2bbb; subst cf. cbn [cf_nint].
     unfold fun_ok in Hok. apply andb_prop in Hok as [Hok _]. apply andb_prop in Hok as [_ Hnd]. apply nodup_names_NoDup in Hnd.
     destruct (split_bind _ _ _ _ _ _ _ _ _ _ _ _ [] [] Hcf2ba Ebp Hnd) as (_ & Hni & _); try reflexivity; try (intros x i Hx; discriminate). { intros x _. auto. }
